@@ -71,6 +71,8 @@ def mutex_prop(pid, pbit, fair_only=False):
           bounds="E-HIST: K=3 slots (re-creatable), N=5 operations from new(), 11-way alphabet, wakers A|B"),
         H(MUTEX, "hist_%s_p3_n7" % tag, "hold", replay=("mutex_hist_noop", cfg | (3 << 2)), mask=P(pbit), est_s=100,
           bounds="E-HIST: K=3, N=7 operations of which the first 3 are fixed to 'poll lock future #k' (partition)"),
+        H(MUTEX, "hist_%s_l_p3_n7" % tag, "hold", replay=("mutex_hist_noop", cfg | (3 << 2) | (1 << 4)), mask=P(pbit), est_s=100,
+          bounds="E-HIST: K=3, N=7 operations: try_lock, then the 3 lock futures are polled (all queue up behind the guard), then 3 arbitrary operations"),
         H(MUTEX, "witness_hist_n5", "witness", replay=("mutex_hist_noop", 2), mask=PALL, witness_bit=1, est_s=100,
           bounds="witness twin: N=5, must reach 'two pending, unlock wakes one'"),
     ]
@@ -672,12 +674,12 @@ PROPS["C16"] = {
 def decode_mutex(cfg, script):
     out = []
     it = iter(script)
-    pre, cfg = (cfg >> 2) & 3, cfg & 3
+    pre, lockfirst, cfg = (cfg >> 2) & 3, (cfg >> 4) & 1, cfg & 3
     if cfg == 2:
         out.append("fair=%s" % bool(next(it, 0)))
     else:
         out.append("fair=%s" % (cfg == 1))
-    ops = [2 * k for k in range(pre)] + list(it)
+    ops = ([10] if lockfirst else []) + [2 * k for k in range(pre)] + list(it)
     for op in ops:
         if op < 6:
             out.append("poll lock-future #%d with waker %s (re-created first if dropped)" % (op // 2, "AB"[op % 2]))
